@@ -366,7 +366,7 @@ def parse_header(lines):
     counts = [int(w) for w in lines[6].split()]
     out["atnums"] = [C.SYM2NUM[s] for s, n in zip(syms, counts) for _ in range(n)]
     pos = 7
-    out["selective"] = lines[pos].lstrip()[:1] in ("S", "s")
+    out["selective"] = lines[pos][:1] in ("S", "s")
     if out["selective"]:
         pos += 1
     out["cartesian"] = lines[pos][:1] in ("C", "c", "K", "k")
